@@ -1,4 +1,195 @@
-import FsDb.Spec.Iso
-/-! # C02 (theorems under construction) -/
+import FsDb.Proofs.Refine
+import FsDb.Proofs.SpecInv
+/-!
+# C02 — Each isolation level shows a transaction exactly the versions it promises
+
+`C02_refinement` is the theorem: for every history of Begin/Set/Delete/Get/GetKeys/Commit/Rollback,
+garbage collection and background cleanup (in any order, any number of open transactions of any
+levels, any number of versions per key) the concrete model — version lists, array search,
+all-store links, re-sequencing commit, collector — answers exactly what the abstract specification
+`Spec.Iso` answers.  The remaining theorems spell out, on the specification, the clauses of the
+property statement.
+-/
 namespace FsDb.C02
+open FsDb Spec
+
+/-- Every history: the concrete model and the specification give the same answers. -/
+theorem C02_refinement (ops : List Op) (hops : ∀ op ∈ ops, op.core = true) :
+    (({} : Sys).run ops).2 = (Spec.run {} ops).2 :=
+  Refine.run_init ops hops
+
+/-- … and from any pair of related states (the invariant is inductive, not just reachable-from-empty). -/
+theorem C02_refinement_step {c : Sys} {s : State} (h : R c s) (op : Op) (hop : op.core = true) :
+    (c.step op).2 = (Spec.step s op).2 ∧ R (c.step op).1 (Spec.step s op).1 :=
+  Refine.step h op hop
+
+/-- the candidates a ReadUncommitted read chooses from: the committed value and every open
+    transaction's own last write -/
+def ruCandidates (s : State) (k : Key) : List (Option SVer) := committed s k :: s.open_.map (fun t => t.own k)
+
+theorem newerS_cases (a b : Option SVer) : newerS a b = a ∨ newerS a b = b := by
+  cases a with
+  | none => cases b <;> simp [newerS]
+  | some x =>
+    cases b with
+    | none => simp [newerS]
+    | some y => simp only [newerS]; split; exact Or.inl rfl; exact Or.inr rfl
+
+theorem newerS_ge (a b : Option SVer) : (∀ x, a = some x → ∃ y, newerS a b = some y ∧ x.stamp ≤ y.stamp) ∧
+    (∀ x, b = some x → ∃ y, newerS a b = some y ∧ x.stamp ≤ y.stamp) := by
+  cases a with
+  | none => cases b <;> simp [newerS]
+  | some x =>
+    cases b with
+    | none => simp [newerS]
+    | some y =>
+      simp only [newerS]
+      split
+      · refine ⟨fun z hz => ⟨x, rfl, by cases hz; exact Nat.le_refl _⟩, fun z hz => ⟨x, rfl, by cases hz; omega⟩⟩
+      · refine ⟨fun z hz => ⟨y, rfl, by cases hz; omega⟩, fun z hz => ⟨y, rfl, by cases hz; exact Nat.le_refl _⟩⟩
+
+/-- ReadUncommitted: the read returns one of the candidates, and no candidate is more recent:
+    "the most recent write to the key by anyone, committed or not" (rolled-back writes are gone:
+    `rollback` removes the transaction from `open_`). -/
+theorem C02_RU (s : State) (b : Nat) (own : Key → Option SVer) (k : Key) :
+    visible s .ru b own k ∈ ruCandidates s k ∧
+    ∀ c ∈ ruCandidates s k, ∀ x, c = some x → ∃ y, visible s .ru b own k = some y ∧ x.stamp ≤ y.stamp := by
+  unfold visible ruCandidates
+  simp only
+  generalize committed s k = init
+  generalize s.open_ = os
+  induction os generalizing init with
+  | nil =>
+    simp only [List.foldl_nil, List.map_nil, List.mem_singleton, true_and]
+    intro c hc x hx; subst hc; exact ⟨x, hx, Nat.le_refl _⟩
+  | cons t os ih =>
+    simp only [List.foldl_cons, List.map_cons]
+    have := ih (newerS (t.own k) init)
+    refine ⟨?_, ?_⟩
+    · rcases List.mem_cons.mp this.1 with h | h
+      · rcases newerS_cases (t.own k) init with h2 | h2
+        · rw [h, h2]; simp
+        · rw [h, h2]; simp
+      · exact List.mem_cons_of_mem _ (List.mem_cons_of_mem _ h)
+    · intro c hc x hx
+      simp only [List.mem_cons] at hc
+      rcases hc with rfl | rfl | hc
+      · obtain ⟨y, hy, hxy⟩ := (newerS_ge (t.own k) c).2 x hx
+        obtain ⟨z, hz, hyz⟩ := this.2 _ (List.mem_cons_self) y hy
+        exact ⟨z, hz, by omega⟩
+      · obtain ⟨y, hy, hxy⟩ := (newerS_ge (t.own k) init).1 x hx
+        obtain ⟨z, hz, hyz⟩ := this.2 _ (List.mem_cons_self) y hy
+        exact ⟨z, hz, by omega⟩
+      · exact this.2 c (List.mem_cons_of_mem _ hc) x hx
+
+/-- ReadCommitted: the more recent of the transaction's own last write and the committed value. -/
+theorem C02_RC (s : State) (b : Nat) (own : Key → Option SVer) (k : Key) :
+    visible s .rc b own k = newerS (own k) (committed s k) := rfl
+
+/-- RepeatableRead / Serializable: the transaction's own last write if it has one … -/
+theorem C02_RR_own (s : State) (lvl : Level) (hl : lvl.snapshot = true) (b : Nat) (own : Key → Option SVer)
+    (k : Key) (v : SVer) (h : own k = some v) : visible s lvl b own k = some v := by
+  cases lvl <;> simp [Level.snapshot] at hl <;> simp [visible, h]
+
+/-- … otherwise the value that was committed when the transaction began: the newest committed
+    version with a stamp below the begin stamp (commits made later carry later stamps). -/
+theorem C02_RR_snapshot (s : State) (lvl : Level) (hl : lvl.snapshot = true) (b : Nat) (own : Key → Option SVer)
+    (k : Key) (h : own k = none) :
+    visible s lvl b own k = ((s.hist k).filter (fun v => v.stamp < b)).getLast? := by
+  cases lvl <;> simp [Level.snapshot] at hl <;> simp [visible, h]
+
+/-- a deleted value reads as ErrNotFound -/
+theorem C02_deleted_reads_notfound (st : Nat) : outOf (some ⟨st, none⟩) = .err .notFound := rfl
+
+/-- reads outside any transaction behave as ReadCommitted with no own writes -/
+theorem C02_autocommit_is_RC (s : State) (k : Key) :
+    Spec.get s mainTx k = outOf (visible s .rc 0 (fun _ => none) k) := by
+  simp [Spec.get, ctxOf]
+
+/-- GetKeys inside a transaction (or outside) lists exactly the keys whose Get succeeds there,
+    sorted and without duplicates. -/
+theorem C02_keys_iff_get (s : State) (hs : SInv s) (t : Nat) (ks : List Key) (h : Spec.getKeys s t = .keys ks) :
+    (∀ k, k ∈ ks ↔ ∃ c, Spec.get s t k = .val c) ∧ ks.Pairwise (· ≤ ·) ∧ ks.Nodup := by
+  unfold Spec.getKeys at h
+  cases hc : ctxOf s t with
+  | none => rw [hc] at h; cases h
+  | some ctx =>
+    obtain ⟨lvl, b, own⟩ := ctx
+    rw [hc] at h
+    simp only [Out.keys.injEq] at h
+    subst h
+    refine ⟨?_, sorted_sortKeys _, nodup_sortKeys _ (List.Nodup.sublist List.filter_sublist hs.domNodup)⟩
+    intro k
+    rw [mem_sortKeys, List.mem_filter]
+    simp only [Spec.get, hc]
+    -- a visible version with a value exists only for keys of the domain
+    have hdom : hasValue (visible s lvl b own k) = true → k ∈ s.dom := by
+      intro hv
+      -- the visible version is a committed one or an own one
+      have hcand : ∀ (x : Option SVer), hasValue x = true → (x = none → False) := by
+        intro x hx hn; subst hn; simp [hasValue] at hx
+      by_cases hh : s.hist k = []
+      · -- nothing committed: the value comes from some transaction's own write
+        by_cases hown : ∃ tx ∈ s.open_, (tx.own k).isSome
+        · obtain ⟨tx, htx, ho⟩ := hown; exact hs.ownDom tx htx k ho
+        · exfalso
+          have hnone : ∀ tx ∈ s.open_, tx.own k = none := by
+            intro tx htx
+            cases ho : tx.own k with
+            | none => rfl
+            | some v => exact absurd ⟨tx, htx, by simp [ho]⟩ hown
+          have hcom : committed s k = none := by simp [committed, hh]
+          -- every level sees nothing
+          have hownk : own k = none := by
+            by_cases htm : t = mainTx
+            · simp [ctxOf, htm] at hc; rw [← hc.2.2]
+            · simp only [ctxOf, htm, if_false, Option.map_eq_some_iff] at hc
+              obtain ⟨tx, hf, he⟩ := hc
+              have := hnone tx (List.mem_of_find?_eq_some hf)
+              simp only [Prod.mk.injEq] at he
+              rw [← he.2.2]; exact this
+          have hvis : visible s lvl b own k = none := by
+            cases lvl
+            · -- ru
+              have := (C02_RU s b own k).1
+              unfold ruCandidates at this
+              simp only [List.mem_cons, List.mem_map] at this
+              rcases this with h1 | ⟨tx, htx, h1⟩
+              · rw [h1, hcom]
+              · rw [← h1]; exact hnone tx htx
+            · simp [visible, hownk, hcom, newerS]
+            · simp [visible, hownk, hh]
+            · simp [visible, hownk, hh]
+          rw [hvis] at hv; simp [hasValue] at hv
+      · exact hs.histDom k hh
+    constructor
+    · rintro ⟨_, hv⟩
+      cases hvis : visible s lvl b own k with
+      | none => rw [hvis] at hv; simp [hasValue] at hv
+      | some v =>
+        rw [hvis] at hv
+        obtain ⟨st, val⟩ := v
+        cases val with
+        | none => simp [hasValue] at hv
+        | some c => exact ⟨c, by simp [outOf]⟩
+    · rintro ⟨c, hcv⟩
+      have hv : hasValue (visible s lvl b own k) = true := by
+        cases hvis : visible s lvl b own k with
+        | none => rw [hvis] at hcv; simp [outOf] at hcv
+        | some v =>
+          rw [hvis] at hcv
+          obtain ⟨st, val⟩ := v
+          cases val with
+          | none => simp [outOf] at hcv
+          | some c' => simp [hasValue]
+      exact ⟨hdom hv, hv⟩
+
+/-- non-vacuity: the project's own `TestDb_Tx` script, on the specification -/
+example :
+    (Spec.run {} [.set 0 "k" 3, .begin 1 .ru, .begin 2 .rc, .begin 3 .ser,
+      .set 1 "k" 10, .set 2 "k" 11, .set 3 "k" 12,
+      .get 0 "k", .get 1 "k", .commit 1, .get 2 "k", .gc, .commit 2, .get 0 "k", .get 3 "k", .commit 3]).2
+    = [.ok, .ok, .ok, .ok, .ok, .ok, .ok, .val 3, .val 12, .ok, .val 10, .ok, .ok, .val 11, .val 12,
+       .err .txSerialization] := by decide
+
 end FsDb.C02
